@@ -18,6 +18,9 @@ type cfg04 struct {
 	// cancelSub: 1-based index of a subscription whose client goes away (its
 	// context is cancelled) at a moment the scheduler chooses; the others stay
 	cancelSub int
+	// refresher: another goroutine runs the periodic metadata refresh (and a
+	// Sync) for all targets while the writers write, as the collector does
+	refresher bool
 }
 
 var initial = map[string][]string{"t1": {"a/b", "x"}, "t2": {"a/b"}}
@@ -89,6 +92,13 @@ func configs04(tier string) []xplore.Config {
 	for _, sc := range [][]wop{{{"reset", ""}}, {{"upd", "a/c"}, {"reset", ""}}} {
 		out = append(out, xplore.Config{Name: fmt.Sprintf("attach during W(t1)=%s | %s", strings.ReplaceAll(scriptName(sc), "reset", "Reset"), subs[0]), Bound: bound,
 			Data: cfg04{writers: []writer{{"t1", sc}}, subs: []subSpec{subs[0]}}})
+	}
+	// the periodic metadata refresh runs in its own goroutine next to the
+	// target's update stream: two feeds into the server for one target at once
+	// (a refresh regenerates a dozen metadata leaves, so a single script here)
+	for _, sc := range [][]wop{{{"upd", "a/b"}}} {
+		out = append(out, xplore.Config{Name: fmt.Sprintf("W(t1)=%s || metadata Refresh | %s", scriptName(sc), subs[0]), Bound: bound,
+			Data: cfg04{writers: []writer{{"t1", sc}}, subs: []subSpec{subs[0]}, refresher: true}})
 	}
 	// two clients with nested paths, one of them leaves while the writer goes on
 	// (whatever the leaving client's removal prunes, the other's registration stays)
@@ -179,6 +189,38 @@ func configs01(tier string) []xplore.Config {
 	return out
 }
 
+// C06 at the server's feed: every update the cache hands to Server.Update is
+// offered under ITS OWN path, whichever other feed for the same target (the
+// metadata refresh goroutine) is inside Server.Update at that moment. Same
+// oracle as C04 (a leaf outside the subscription, or a subscribed leaf that
+// never arrives, is a wrongly addressed offer).
+func configs06(tier string) []xplore.Config {
+	stream := pb.SubscriptionList_STREAM
+	bound := 2
+	var out []xplore.Config
+	scs := [][]wop{{{"upd", "a/b"}}}
+	if tier == "thorough" {
+		bound = 3
+		scs = append(scs, []wop{{"upd", "a/b"}, {"del", "a/b"}})
+	}
+	for _, sc := range scs {
+		for _, sp := range []subSpec{{target: "t1", paths: []string{"a"}, mode: stream}, {target: "t1", paths: []string{"a/b"}, mode: stream}} {
+			out = append(out, xplore.Config{Name: fmt.Sprintf("feed W(t1)=%s || metadata Refresh | %s", scriptName(sc), sp), Bound: bound,
+				Data: cfg04{writers: []writer{{"t1", sc}}, subs: []subSpec{sp}, refresher: true}})
+		}
+	}
+	n := len(out)
+	for i := 0; i < n; i++ {
+		c := out[i]
+		d := c.Data.(cfg04)
+		d.reverse = true
+		c.Data = d
+		c.Name += " [newest-first]"
+		out = append(out, c)
+	}
+	return out
+}
+
 func setupInitial(w *world) {
 	for _, t := range []string{"t1", "t2"} {
 		for _, p := range initial[t] {
@@ -230,6 +272,9 @@ func run04(cfg xplore.Config, ch vrt.Chooser, trace bool) (xplore.Outcome, *vrt.
 		}
 		if d.cancelSub > 0 {
 			vrt.GoNamed("client-leaves", func() { w.streams[d.cancelSub-1].cancel() })
+		}
+		if d.refresher {
+			vrt.GoNamed("metadata-refresh", func() { w.c.UpdateMetadata() })
 		}
 		settle()
 		// ---- phase 1: the system stopped changing
